@@ -48,7 +48,7 @@ def run(ctx):
     vf.tlc_mc("MC_Revset", "MC_Revset_neg_gen", expect_violation="InvFoldGeneration", workers=4, timeout=600)
     ctx.cov["tlc_runs"].append({"run": "negative:gen_hi_inclusive", "outcome": "fails as required (InvFoldGeneration)"})
     n_enum = len(cases)
-    k = ctx.q(5000, 36000)
+    k = ctx.q(5000, 20000)
     picked = cases if len(cases) <= k else rnd.sample(cases, k)
     by = {}
     for c in picked:
@@ -61,7 +61,7 @@ def run(ctx):
     t1 = ctx.path("replay.ndjson")
     ctx.harness("index", ["revset-replay", "--in", cf, "--out", t1, "--seed", ctx.seed], env=env, timeout=1800)
     t2 = ctx.path("random.ndjson")
-    ctx.harness("index", ["revset-random", "--out", t2, "--seed", ctx.seed, "--n", ctx.q(40, 200), "--exprs", ctx.q(40, 80),
+    ctx.harness("index", ["revset-random", "--out", t2, "--seed", ctx.seed, "--n", ctx.q(40, 120), "--exprs", ctx.q(40, 60),
                           "--maxn", 12, "--depth", 5], env=env, timeout=1800)
     sig = lambda rec, verdict: "%s:%s" % (verdict, rec.get("e", {}).get("t", "-"))
     j1 = vf.judge_records(ctx, "Trace_Revset", t1, sig_fn=sig, nontrivial_fn=nontrivial, chunk=ctx.q(1300, 3000))
